@@ -12,7 +12,7 @@ import (
 // (shape ids, service ids) are in byte-wise order, with "10" before "9".
 var (
 	AgencyIDs  = []string{"", "MTA", "a2", "zz", "MTA "}
-	Names      = []string{"", "Main St", "Elm, Ave \"Q\"", "Line\nbreak", "Ünï → ok", " lead", "trail ", "x"}
+	Names      = []string{"", "Main St", "Elm, Ave \"Q\"", "Line\nbreak", "Ünï → ok", " lead", "trail ", "x", "two\n\nparagraphs\n \nand a blank line"}
 	URLs       = []string{"", "http://a.example/x?y=1,2", "https://b.example/"}
 	TZs        = []string{"", "America/New_York", "UTC", "Asia/Kolkata", "Not/AZone", "Pacific/Auckland"}
 	Langs      = []string{"", "en", "fr-CA"}
